@@ -78,6 +78,16 @@ func buildWorld(base string) world {
 		add(i < 2, Case{Method: "GET", Template: "/things", Consumes: "json", Produces: m,
 			Params: []P{q(BS("q " + m)), hv(BS("h;" + m))}, Resp: respOf(200, m, BS("E-"+m))})
 	}
+	// binary responses of different content and length, received into a *[]byte (and a *string for contrast)
+	for i, b := range []struct {
+		dest string
+		n    int
+		pat  int
+	}{{"slice", 40, 0}, {"slice", 25, 1}, {"slice", 40, 1}, {"string", 33, 0}, {"slice", 5000, 1}} {
+		r := Resp{Status: 200 + i%2, Kind: "bytes", Dest: b.dest, Text: BS(fileContent(b.n, b.pat)), H: []H{{K: "X-Step", V: []BS{BS(fmt.Sprint("E-bin-", i))}}}}
+		add(i < 3, Case{Method: "GET", Template: "/things", Consumes: "json", Produces: "bytes",
+			Params: []P{q(BS(fmt.Sprint("bin ", i))), hv("b")}, Resp: r})
+	}
 	add(false, Case{Method: "GET", Template: "/things", Consumes: "json", Produces: "json", Auth: true,
 		Params: []P{q("+"), hv("")}, Resp: Resp{Status: 204, Kind: "none", H: []H{{K: "X-Step", V: []BS{"E-auth", "second"}}}}})
 	// F: POST /upload - a file and a field
@@ -104,21 +114,21 @@ func buildWorld(base string) world {
 
 // sessionsOf lists the sessions of one world: every ordered pair of steps
 // (including a step with itself), every ordered triple of core steps
-// (thorough), and one long history: the whole alphabet forward then backward
-// on one instance.
-func sessionsOf(w *world, triples bool) [][]int {
+// (thorough), one long history: the whole alphabet forward then backward on
+// one instance, and the across-instances sequences described below.
+func sessionsOf(w *world, triples bool) []plan {
 	n := len(w.alphabet)
-	var out [][]int
+	var out []plan
 	for a := 0; a < n; a++ {
 		for b := 0; b < n; b++ {
-			out = append(out, []int{a, b})
+			out = append(out, plan{idx: []int{a, b}})
 		}
 	}
 	if triples {
 		for _, a := range w.core {
 			for _, b := range w.core {
 				for _, c := range w.core {
-					out = append(out, []int{a, b, c})
+					out = append(out, plan{idx: []int{a, b, c}})
 				}
 			}
 		}
@@ -130,8 +140,28 @@ func sessionsOf(w *world, triples bool) [][]int {
 	for a := n - 1; a >= 0; a-- {
 		long = append(long, a)
 	}
-	out = append(out, long)
+	out = append(out, plan{idx: long})
+	// across instances: a new server and a new Runtime for every step, only the process is shared -
+	// the long history, and every ordered pair of the steps that carry a binary body either way
+	out = append(out, plan{idx: long, fresh: true})
+	var bin []int
+	for i := range w.alphabet {
+		if w.alphabet[i].Consumes == "bytes" || w.alphabet[i].Resp.Kind == "bytes" {
+			bin = append(bin, i)
+		}
+	}
+	for _, a := range bin {
+		for _, b := range bin {
+			out = append(out, plan{idx: []int{a, b}, fresh: true})
+		}
+	}
 	return out
+}
+
+// plan is one sequence: the steps by alphabet index; fresh = new instances for every step.
+type plan struct {
+	idx   []int
+	fresh bool
 }
 
 func worlds(full bool) []world {
@@ -142,9 +172,9 @@ func worlds(full bool) []world {
 	return ws
 }
 
-func (w *world) session(idx []int) Session {
-	s := Session{Also: w.alphabet}
-	for _, i := range idx {
+func (w *world) session(p plan) Session {
+	s := Session{Also: w.alphabet, Fresh: p.fresh}
+	for _, i := range p.idx {
 		s.Steps = append(s.Steps, w.alphabet[i])
 	}
 	return s
